@@ -18,6 +18,8 @@ import sys
 from concurrent.futures import ThreadPoolExecutor
 
 VERIF = os.path.dirname(os.path.dirname(os.path.abspath(__file__)))
+ROOT = os.environ.get('SEED_ROOT', '/tmp/seed')
+OFFSET = int(os.environ.get('SEED_OFFSET', '0'))
 PY = '/venv/bin/python'
 
 
@@ -30,7 +32,8 @@ def sh(cmd, cwd=None, timeout=900):
 def verify(item):
     pid, k, src = item
     wt = '/tmp/vfy-%s-%s' % (pid, k)
-    res = {'id': '%s-%s' % (pid, k), 'property': pid}
+    sid = '%s-%d' % (pid, int(k) + OFFSET)
+    res = {'id': sid, 'property': pid}
     sh('git -C /repo worktree remove --force %s' % wt)
     rc, out = sh('git -C /repo worktree add --detach %s -q' % wt)
     try:
@@ -65,7 +68,7 @@ def verify(item):
         sh('git -C /repo worktree remove --force %s' % wt)
         shutil.rmtree(wt, ignore_errors=True)
     if res.get('ok'):
-        dst = os.path.join(VERIF, 'seeded', '%s-%s' % (pid, k))
+        dst = os.path.join(VERIF, 'seeded', sid)
         os.makedirs(dst, exist_ok=True)
         shutil.copy(os.path.join(src, 'patch.diff'), dst)
         shutil.copy(os.path.join(src, 'demo.py'), dst)
@@ -92,8 +95,8 @@ def verify(item):
 def main():
     only = sys.argv[1:]
     items = []
-    for pid in sorted(os.listdir('/tmp/seed')):
-        d = os.path.join('/tmp/seed', pid, 'out')
+    for pid in sorted(os.listdir(ROOT)):
+        d = os.path.join(ROOT, pid, 'out')
         if not os.path.isdir(d):
             continue
         if only and pid not in only:
